@@ -92,7 +92,7 @@ impl Family for FLimits {
 pub struct FCall;
 
 impl FCall {
-    const DIMS: [u64; 6] = [4, 5, 3, 2, 4, 3];
+    const DIMS: [u64; 6] = [4, 9, 3, 2, 4, 3];
 }
 
 impl Family for FCall {
@@ -120,10 +120,16 @@ impl Family for FCall {
             1 => body.insert(0, C::Return(b(ret_val))),
             2 => body.push(C::Repeat { n: b(int(3)), i: Some("i".into()), body: b(C::IfTrue(b(rv("i")), b(C::Return(b(add(rv("i"), rv("loc"))))))) }),
             3 => body.push(C::IfElse(b(rv("loc")), b(C::Return(b(ret_val))), b(C::Return(b(int(-1)))))),
-            _ => {
+            4 => {
                 body.push(C::Repeat { n: b(int(2)), i: None, body: b(sv("loc", add(rv("loc"), int(1)))) });
                 body.push(C::Return(b(rv("loc"))));
             }
+            // the function ends in a conditional of which exactly one branch returns, and the call
+            // takes the other one: it runs off its end (nil) - and not into the next function
+            5 => body.push(C::IfElse(b(int(0)), b(C::Return(b(ret_val))), b(sv("loc", int(6))))),
+            6 => body.push(C::IfElse(b(rv("loc")), b(sv("loc", int(6))), b(C::Return(b(int(-1)))))),
+            7 => body.push(C::IfTrue(b(int(0)), b(C::Return(b(ret_val))))),
+            _ => body.push(comp(vec![sv("loc", int(7)), C::IfElse(b(int(0)), b(C::Return(b(ret_val))), b(sv("loc", int(6))))])),
         }
         let mut fns: Vec<(String, Func)> = Vec::new();
         match recursion {
@@ -172,6 +178,8 @@ impl Family for FCall {
             _ => vec![sv("outer", int(1)), sv("cl", C::Closure(vec![], site)), C::DynCall(b(rv("cl")), vec![]), log2("outer", rv("outer"))],
         };
         let mut functions = vec![("main".to_string(), func(&[], main_cards))];
+        // a function that is never called sits behind every other one
+        fns.push(("zz_never_called".into(), func(&[], vec![native("log", vec![s("zz_never_called ran")]), sg("intruder", int(1)), C::Return(b(int(99)))])));
         functions.extend(fns);
         Module { submodules: vec![], functions, imports: vec![] }
     }
